@@ -86,6 +86,14 @@ func basicValues(t reflect.Type) []namedValue {
 	return []namedValue{{"zero(" + t.String() + ")", reflect.Zero(t)}}
 }
 
+type (
+	namedStr   string
+	namedBool  bool
+	namedInt   int
+	namedFloat float64
+	namedBytes []byte
+)
+
 type privateStruct struct {
 	A int
 	b *int
@@ -116,6 +124,8 @@ func awkwardAny() []namedValue {
 		nv("Stack", stackage.And().Push("in", nil)), nv("Condition", stackage.Cond("k", stackage.Lt, 3)), nv("StackAlias", StackAlias(stackage.List().Push("al"))), nv("*CondAlias", func() any { c := CondAlias(stackage.Cond("a", stackage.Eq, "b")); return &c }()),
 		nv(`Cond("",Ne,"v")`, stackage.Cond("", stackage.Ne, "v")), nv("Init+SetOperator", func() any { var c stackage.Condition; c.Init(); c.SetOperator(stackage.Ge); return c }()),
 		nv("&freed Stack", &freedS), nv("&freed Condition", &freedC), nv("&StackAlias{}", &StackAlias{}), nv("&Condition{}", &stackage.Condition{}),
+		nv("namedStr", namedStr("role")), nv("namedBool", namedBool(true)), nv("namedInt", namedInt(5)), nv("namedFloat", namedFloat(2.5)), nv("namedBytes", namedBytes("b")),
+		nv("[]*int{nil}", []*int{nil}), nv("[]func(){f}", []func(){func() {}}), nv("[2]*string{nil,nil}", [2]*string{}), nv("[]any{1,nil}", []any{1, nil}),
 		nv("Stringer", strer{"str"}), nv("zero Stringer", strer{}), nv("[]string{}", []string{}), nv("LogLevel(0)", stackage.LogLevel(0)),
 	}
 	return out
